@@ -434,6 +434,9 @@ namespace Pistache::Http::Experimental
                 }
                 else
                 {
+                    const int err = errno;
+                    conn->close();
+                    errno = err;
                     data->reject(Error::system("Failed to connect"));
                     continue;
                 }
@@ -489,6 +492,7 @@ namespace Pistache::Http::Experimental
             {
                 // The answer to the request that timed out may still arrive. It must not be
                 // taken for the answer to the next request: give up the connection.
+                pendingSends.erase(connection->fd());
                 connections.erase(connection->fd());
                 connection->close();
                 connection->handleTimeout();
@@ -553,10 +557,8 @@ namespace Pistache::Http::Experimental
                 connectionEntry.reject(Error::system("Connection lost"));
             }
         }
-        else
-        {
-            throw std::runtime_error("Unknown fd");
-        }
+        // else: a stale event - the descriptor was given up (time-out, error) earlier in this
+        // batch of events
     }
 
     void Transport::handleHangupEntry(const Aio::FdSet::Entry& entry)
@@ -593,6 +595,7 @@ namespace Pistache::Http::Experimental
                 {
                     // e.g. reset by the server: the connection is of no use any more
                     const std::string error = strerror(errno);
+                    pendingSends.erase(connection->fd());
                     connections.erase(connection->fd());
                     connection->close();
                     connection->handleError(error.c_str());
@@ -605,6 +608,7 @@ namespace Pistache::Http::Experimental
                 // failing it hands the connection over to the next queued request, which
                 // must open a new one. A request can be in flight even when a complete
                 // response has just been read: the one that was handed over on its completion.
+                pendingSends.erase(connection->fd());
                 connections.erase(connection->fd());
                 connection->close();
                 connection->handleError("Remote closed connection");
@@ -613,14 +617,28 @@ namespace Pistache::Http::Experimental
             else
             {
                 totalBytes += bytes;
-                if (!connection->handleResponsePacket(buffer, bytes))
+                const Fd cfd       = connection->fd();
+                const bool sending = pendingSends.find(cfd) != std::end(pendingSends);
+                // When the server answers before it has the whole request the connection cannot
+                // be used again (the rest of the request will not be sent): it is closed before
+                // the hand-over, which then opens a new one.
+                if (!connection->handleResponsePacket(buffer, bytes, sending))
                 {
                     // as for a connection closed by the server: give it up first, then fail
                     // the request in flight (which hands over to the next queued request)
                     const std::string error = connection->responseError();
+                    pendingSends.erase(connection->fd());
                     connections.erase(connection->fd());
                     connection->close();
                     connection->handleError(error.c_str());
+                    break;
+                }
+                if (!connection->isConnected() || connection->fd() != cfd)
+                {
+                    // closed (and possibly being opened again) by the early answer or by what
+                    // the hand-over did
+                    pendingSends.erase(cfd);
+                    connections.erase(cfd);
                     break;
                 }
             }
@@ -678,11 +696,18 @@ namespace Pistache::Http::Experimental
                     [=](std::exception_ptr exc) {
                         // The connection could not be established: the requests that wait
                         // for it fail (each one frees the connection for the next attempt)
+                        // (taken out first: onDone() queues the next request for the next
+                        // attempt on this very queue)
+                        std::vector<decltype(requestsQueue.popSafe())> waiting;
                         for (;;)
                         {
                             auto req = requestsQueue.popSafe();
                             if (!req)
                                 break;
+                            waiting.push_back(std::move(req));
+                        }
+                        for (auto& req : waiting)
+                        {
                             req->reject(exc);
                             if (req->onDone)
                                 req->onDone();
@@ -749,7 +774,7 @@ namespace Pistache::Http::Experimental
         return fd_;
     }
 
-    bool Connection::handleResponsePacket(const char* buffer, size_t totalBytes)
+    bool Connection::handleResponsePacket(const char* buffer, size_t totalBytes, bool closeBeforeDone)
     {
         // Bytes that no request is waiting for (a 408 the server sends before it closes an idle
         // connection, an interim response, garbage) are not the beginning of the response to
@@ -779,7 +804,7 @@ namespace Pistache::Http::Experimental
                 {
                     const std::string rest = parser.unparsed();
                     parser.reset();
-                    return rest.empty() || handleResponsePacket(rest.data(), rest.size());
+                    return rest.empty() || handleResponsePacket(rest.data(), rest.size(), closeBeforeDone);
                 }
 
                 if (requestEntry->timer)
@@ -794,6 +819,9 @@ namespace Pistache::Http::Experimental
                 auto onDone = requestEntry->onDone;
 
                 requestEntry.reset(nullptr);
+
+                if (closeBeforeDone)
+                    close();
 
                 if (onDone)
                     onDone();
@@ -899,15 +927,17 @@ namespace Pistache::Http::Experimental
 
     void Connection::processRequestQueue()
     {
+        std::vector<decltype(requestsQueue.popSafe())> waiting;
         for (;;)
         {
             auto req = requestsQueue.popSafe();
             if (!req)
                 break;
-
+            waiting.push_back(std::move(req));
+        }
+        for (auto& req : waiting)
             performImpl(req->request, std::move(req->resolve), std::move(req->reject),
                         std::move(req->onDone));
-        }
     }
 
     void ConnectionPool::init(size_t maxConnectionsPerHost,
@@ -1231,6 +1261,18 @@ namespace Pistache::Http::Experimental
 
     void Client::processRequestQueue()
     {
+        // what is handed over is sent after the lock is released: a send that fails at once
+        // fails its request, which comes back here
+        std::vector<std::function<void()>> handOvers;
+        struct RunAfter
+        {
+            std::vector<std::function<void()>>& v;
+            ~RunAfter()
+            {
+                for (auto& f : v)
+                    f();
+            }
+        } runAfter { handOvers };
         Guard guard(queuesLock);
 
         if (stopProcessPequestsQueues)
@@ -1257,6 +1299,7 @@ namespace Pistache::Http::Experimental
                     pool.releaseConnection(conn);
                     processRequestQueue();
                 };
+                handOvers.push_back([this, conn, data, onDone, domain]() {
                 if (!conn->isConnected())
                 {
                     // e.g. closed after a time-out: connect again, the request is sent once connected
@@ -1273,10 +1316,11 @@ namespace Pistache::Http::Experimental
                                   }
                               });
                     conn->connect(helpers::httpAddr(domain));
-                    continue;
+                    return;
                 }
                 conn->performImpl(data->request, std::move(data->resolve),
                                   std::move(data->reject), onDone);
+                });
             }
         }
     }
